@@ -901,7 +901,11 @@ libGetSection(Lib lib, LibSectName name, Bool stat)
 		buf = bufCapture(s, cc);
 	}
 
-	FILE_GET_CHARS(lib->file, s, cc);
+	if (fread(s, BYTE_BYTES, cc, lib->file) != cc) {
+		/* The file ends inside the section: it has been truncated. */
+		libError(lib, ALDOR_E_LibSectOffset);
+		comsgFatal(NULL, ALDOR_F_CantOpen, libToStringStatic(lib));
+	}
 	bufStart(buf);
 	return buf;
 }
